@@ -138,7 +138,7 @@ def compare(md, cfgname, ops, exe=None):
     impl_out, rc = run_impl(exe, ops)
     bi, bm = split_ops(impl_out), split_ops(model_out)
     res = {"ok": True, "impl": bi, "model": bm, "bad": any(l.startswith("BAD") for b in bm for l in b), "rc": rc,
-           "root_lib": root_lib, "impl_raw": split_ops(impl_out, True)}
+           "root_lib": root_lib, "impl_raw": split_ops(impl_out, True), "ids": ids}
     if res["bad"]:
         return res      # the model refuses the case (re-entrancy / fuel / unsupported shape): not comparable
     for k in range(max(len(bi), len(bm))):
